@@ -535,6 +535,7 @@ type ParamSpec struct { // contract for a function-typed parameter
 type Contract struct {
 	LockOnly bool // only the lock discipline of this function is verified
 	Abstract bool // unmodelled instructions / callees are abstracted by havoc
+	Binds    []BindDecl
 	ReadonlyWhen []Clause
 	FuncName  string // as written: e.g. poolFor, (*Allocator).Assign, or fully qualified for stubs
 	Pkg       string // package path
@@ -611,6 +612,13 @@ type LemmaDef struct {
 	Props []string
 }
 
+type BindDecl struct {
+	Field  string // controllers.ServiceReconciler.Handler (last two components matter: Type.field)
+	Method string // (*Listener).ServiceHandler
+	File   string
+	Line   int
+}
+
 type GuardedBy struct {
 	Mutex  string   // e.g. Allocator.countersMutex
 	Fields []string // e.g. Allocator.poolToCounters
@@ -631,7 +639,7 @@ type SpecFile struct {
 var directiveWords = map[string]bool{
 	"func": true, "requires": true, "ensures": true, "modifies": true, "loop": true, "pred": true, "fun": true,
 	"ufun": true, "axiom": true, "lemma": true, "pure": true, "check": true, "immutable": true, "trusted": true,
-	"inline": true, "package": true, "allocates": true, "pureparam": true, "denotes": true, "assert": true, "guarded_by": true, "havocs": true, "opaque": true, "reads": true, "call": true, "readonly": true, "lockonly": true, "abstract": true,
+	"inline": true, "package": true, "allocates": true, "pureparam": true, "denotes": true, "assert": true, "guarded_by": true, "havocs": true, "opaque": true, "reads": true, "call": true, "readonly": true, "lockonly": true, "abstract": true, "binds": true,
 }
 
 // parseSpecText parses the joined text of //@ lines. lines carries (text,lineNo).
@@ -805,6 +813,16 @@ func parseSpecLines(file string, pkg string, lines []specLine) (*SpecFile, error
 			}
 			cur.LockOnly = true
 			cur.Abstract = true
+		case "binds":
+			// binds T.field to <method>: every store to field `field` of a T in this function stores the method value <method>
+			if cur == nil {
+				return nil, errf("binds outside func")
+			}
+			f := strings.Fields(d.text)
+			if len(f) != 3 || f[1] != "to" {
+				return nil, errf("binds: expected 'binds T.field to (*R).Method'")
+			}
+			cur.Binds = append(cur.Binds, BindDecl{Field: f[0], Method: f[2], File: file, Line: d.line})
 		case "abstract":
 			// abstract: instructions and callees outside the modelled subset are abstracted (arbitrary result, arbitrary heap
 			// afterwards, lock state kept); generated safety obligations are not claimed for such a function
